@@ -11,6 +11,10 @@ cp "$VERIF_REPO/go.sum" harness/go.sum
 if [ "$VERIF_REPO" != /repo ]; then ( cd harness && go mod edit -replace github.com/a14e/gogreement="$VERIF_REPO" ); fi
 ( cd "$VERIF_REPO" && go build -tags verif -o "$VERIF_BUILD/gogreement.new" ./cmd/gogreement ) && mv "$VERIF_BUILD/gogreement.new" "$VERIF_BUILD/gogreement"
 ( cd harness && go build -tags verif -o "$VERIF_BUILD/vcheck.new" ./cmd/vcheck ) && mv "$VERIF_BUILD/vcheck.new" "$VERIF_BUILD/vcheck"
+if [ "$RACE" = 1 ] && [ -x /opt/veriftools/go1.26.8/bin/go ]; then
+  # the same harness built with the second toolchain (GOROOT outside the module cache): std-library overlay workload of C10
+  ( cd harness && PATH=/opt/veriftools/go1.26.8/bin:$PATH GOTOOLCHAIN=local go build -tags verif -o "$VERIF_BUILD/vcheck-std.new" ./cmd/vcheck ) && mv "$VERIF_BUILD/vcheck-std.new" "$VERIF_BUILD/vcheck-std"
+fi
 if [ "$RACE" = 1 ]; then
   ( cd "$VERIF_REPO" && go build -race -tags verif -o "$VERIF_BUILD/gogreement-race.new" ./cmd/gogreement ) && mv "$VERIF_BUILD/gogreement-race.new" "$VERIF_BUILD/gogreement-race"
   ( cd harness && go build -race -tags verif -o "$VERIF_BUILD/vcheck-race.new" ./cmd/vcheck ) && mv "$VERIF_BUILD/vcheck-race.new" "$VERIF_BUILD/vcheck-race"
